@@ -1,7 +1,7 @@
 /-
 C10 line-protocol driver (see harness/internal/c10/c10.go for the field list):
 
-  req <srvT> <cih> <strict> <hT> <omit> <remote> <tls> <host> <hdrs> <tbl> <fails> <hops> <mode> <lb>
+  req <srvT> <cih> <strict> <hT> <omit> <remote> <tls> <host> <hdrs> <tbl> <fails> <hops> <mode> <lb> <rt>
 
 `tbl` carries net/netip's answers for this case (every '%'-free substring of the remote
 address / a header value that `ParseAddr` accepts, its `String()`, and `Prefix.Contains`
@@ -33,11 +33,27 @@ def tableNet (tbl : List Entry) : Net Entry PIdx where
   toString := fun a => a.canon
 
 def cidrChar (c : Char) : Bool :=
-  ('0' ≤ c && c ≤ '9') || ('a' ≤ c && c ≤ 'f') || ('A' ≤ c && c ≤ 'F') || c == ':' || c == '.' || c == '/'
+  ('0' ≤ c && c ≤ '9') || ('a' ≤ c && c ≤ 'z') || ('A' ≤ c && c ≤ 'Z') || c == ':' || c == '.' || c == '/' ||
+  c == '%' || c == '_' || c == '-'
+
+/-- the range expressions of a field, as bytes (ASCII) -/
+def rangeExprs (s : String) : List Bytes :=
+  if s == "." || s == "nil" then [] else (s.splitOn ",").map asciiBytes
+
+/-- `rt`: one `PA` pair per range expression -/
+def parseVerdicts (n : Nat) (s : String) : Option (List RangeVerdict) :=
+  if s == "." then (if n = 0 then some [] else none) else
+  let ps := s.splitOn ","
+  if ps.length ≠ n then none else
+  ps.mapM fun p =>
+    match p.toList with
+    | [a, b] =>
+      if (a == '0' || a == '1') && (b == '0' || b == '1') then some ⟨a == '1', b == '1'⟩ else none
+    | _ => none
 
 /-- a range list: only its length matters to the model; `none` = malformed -/
 def parseRanges (s : String) : Option Nat :=
-  if s == "." then some 0 else
+  if s == "." then some 0 else if s == "nil" then none else
   let ps := s.splitOn ","
   if ps.all (fun p => !p.isEmpty && p.toList.all cidrChar) then some ps.length else none
 
@@ -140,7 +156,7 @@ def handleCF : List String → String
 
 def handle : List String → String
   | "cf" :: rest => handleCF rest
-  | ["req", srvT, cih, strict, hT, omitF, remote, tls, host, hdrs, tbl, failsF, hopsF, modeF, lbF] =>
+  | ["req", srvT, cih, strict, hT, omitF, remote, tls, host, hdrs, tbl, failsF, hopsF, modeF, lbF, rtF] =>
     -- `dyn:` = the same ranges answered by a request-scoped IPRangeSource (not among the probe's matcher ranges)
     let dyn := srvT.startsWith "dyn:"
     let srvT := if dyn then (srvT.drop 4).toString else srvT
@@ -157,6 +173,14 @@ def handle : List String → String
     match srv, ci, st, parseRanges hT, om, Hex.decode remote, tlsB, Hex.decode host, parseHdrs hdrs with
     | some srv, some ci, some st, some nh, some (o1, o2, o3), some remote, some tls, some host, some wire =>
       let ns := match srv with | some n => n | none => 0
+      let exprs := rangeExprs srvT ++ rangeExprs hT
+      match parseVerdicts exprs.length rtF with
+      | none => "bad-op"
+      | some verdicts =>
+      -- provisioning (static source, reverse_proxy, matchers) rejects the configuration if an expression is invalid
+      -- (the request-scoped source is fed parsed prefixes: an invalid expression there is a malformed case)
+      if dyn && !provisionAccepts ((rangeExprs srvT).zip verdicts) then "bad-op" else
+      if !provisionAccepts (exprs.zip verdicts) then "provision-error" else
       -- mode: 0 GET over HTTP/1.1 | 1 websocket over HTTP/2; ServeHTTP's rewriting of the prepared request
       -- (method, Upgrade/Connection, :protocol, Sec-WebSocket-Key) does not touch a modelled field
       match parseTable ns nh tbl, parseSmall failsF, parseOps hopsF, (if modeF == "0" || modeF == "1" then parseSmall lbF else none) with
@@ -166,7 +190,8 @@ def handle : List String → String
             handlerTrusted := idxList 1 nh, omitXFF := o1, omitXFP := o2, omitXFH := o3 }
         -- the probe's matchers: server ranges, handler ranges, then the fixed ranges
         let mranges : List (MRange PIdx) :=
-          ((idxList 0 (if dyn then 0 else ns) ++ idxList 1 nh).map (fun p => ⟨p, []⟩)) ++
+          (((idxList 0 (if dyn then 0 else ns)).zip (rangeExprs srvT) ++ (idxList 1 nh).zip (rangeExprs hT)).map
+            (fun pe => ⟨pe.1, (ipAndZone pe.2).2⟩)) ++
           (fixedZones.zipIdx.map (fun zi => ⟨⟨2, zi.2⟩, zi.1⟩))
         showOut (serve (tableNet table) cfg ⟨remote, tls, host, early⟩ wire)
           (serveConsumers (tableNet table) cfg mranges ⟨remote, tls, host, early⟩ wire)
